@@ -301,7 +301,16 @@ func (g *qqGen) macroProgram() (defs []MalType, callForm MalType) {
 		ls(sy("def"), sy("x"), 7), ls(sy("def"), sy("ys"), call1("list", 1, 2)), ls(sy("def"), sy("vs"), vc(3, 4)),
 		ls(sy("def"), sy("f1"), ls(sy("fn"), vc(sy("a")), call1("trace!", call1("+", sy("a"), 1)))),
 	}
-	switch r.intn(7) {
+	switch r.intn(9) {
+	case 7: // an expander with a side effect that then fails (or not): the effect must happen once
+		defs = append(defs, ls(sy("defmacro"), sy("m"), ls(sy("fn"), vc(sy("a")),
+			call1("trace!", kw("expanding")), ls(sy("if"), sy("a"), call1("throw", "bad macro argument"), call1("quasiquote", ls(sy("f1"), 1))))))
+		callForm = ls(sy("try"), ls(sy("m"), r.chance(2, 3)), ls(sy("catch"), sy("e"), call1("trace!", kw("caught")), sy("e")))
+	case 8: // a macro whose expander counts its own invocations in an atom
+		defs = append(defs, ls(sy("def"), sy("cnt"), call1("atom", 0)),
+			ls(sy("defmacro"), sy("m"), ls(sy("fn"), vc(sy("a")), call1("swap!", sy("cnt"), sy("inc")),
+				ls(sy("if"), call1("=", sy("a"), 0), call1("throw", kw("zero")), sy("a")))))
+		callForm = ls(sy("list"), ls(sy("try"), ls(sy("m"), r.intn(2)), ls(sy("catch"), sy("e"), sy("e"))), call1("deref", sy("cnt")))
 	case 0: // (unless c a b)
 		defs = append(defs, ls(sy("defmacro"), sy("m"), ls(sy("fn"), vc(sy("c"), sy("a"), sy("b")),
 			call1("quasiquote", ls(sy("if"), call1("unquote", sy("c")), call1("unquote", sy("b")), call1("unquote", sy("a")))))))
